@@ -583,6 +583,10 @@ class Program:
             self.inline_new_helpers(known)
             self._callees = {}
             self._callers = None
+        if include is not None:
+            self.prune_infallible_arms()
+            self._callees = {}
+            self._callers = None
 
     # ---- helper functions that did not exist on the reference tree are inlined into their callers, so that rules anchored on the
     #      functions of the reference tree keep seeing the same code after an "extract function" refactoring
@@ -677,6 +681,141 @@ class Program:
 
     def trait_impl_methods(self, trait, method):
         return list(self._trait_impls.get((trait, method), []))
+
+    def prune_infallible_arms(self):
+        """`match f() { Ok(v) => .., Err(e) => .. }` (and `f()?`) where the crate function f provably never returns Err (never_err): the Err
+        arm is removed from the control-flow graph, as rustc's own SimplifyCfg would after inlining.  All rules then see the same paths
+        whether the caller unwraps the result or handles an error that cannot occur."""
+        import values as _v
+        self.pruned_arms = []
+        cands = [p for p, fn in self.fns.items() if not fn.derived and any(bl.term["k"] == "switch" for bl in fn.blocks)]
+        for path in cands:
+            fn = self.fns[path]
+            # quick filter: calls a crate function returning Result
+            if not any(t["k"] == "call" and any(x in self.fns and self.fns[x].locals and "Result<" in self.fns[x].locals[0]["ty"] for x in self.call_targets(t))
+                       for t in (bl.term for bl in fn.blocks)):
+                continue
+            ev = None
+            j = None
+            for bl in fn.blocks:
+                t = bl.term
+                if t["k"] != "switch" or bl.idx not in fn.reachable():
+                    continue
+                o = t["op"].get("mv") or t["op"].get("cp")
+                if not o or o.get("p"):
+                    continue
+                dsc = [st for st in bl.stmts if st["k"] == "assign" and st["dst"]["l"] == o["l"] and not st["dst"].get("p") and st["rv"]["k"] == "discr"]
+                if not dsc:
+                    continue
+                if ev is None:
+                    ev = _v.Ev(self, fn)
+                rv = dsc[-1]["rv"]
+                a = ev.place(rv["place"], (bl.idx, len(bl.stmts)))
+                if not isinstance(a, tuple) or a[0] == "agg":
+                    continue
+                kv = ev.known_variant(a)
+                if kv is None:
+                    continue
+                val = next((v for v, name in rv.get("variants", []) if name == kv), None)
+                if val is None:
+                    continue
+                tgt = next((c[1] for c in t["cases"] if c[0] == val), t["otherwise"])
+                if j is None:
+                    import copy
+                    j = copy.deepcopy(fn.j)
+                j["blocks"][bl.idx]["term"] = {"k": "goto", "tgt": tgt, "span": t.get("span"), "mac": t.get("mac")}
+                self.pruned_arms.append((path, bl.idx, kv))
+            if j is not None:
+                self.fns[path] = Fn(path, j, fn.crate)
+        self.__dict__.pop("_never_err", None)
+
+    INFALLIBLE_ON_VEC = ("write_all", "write", "flush", "write_u8", "write_u16", "write_u32", "write_u64", "write_i8", "write_i16", "write_i32",
+                         "write_i64", "write_u128", "write_fmt")
+
+    def never_err(self, path):
+        """True when the crate-local function `path` returns a Result and provably never returns Err: it builds no Err value and every `?`
+        in it propagates from an io::Write call on a Vec<u8> (std: writing to a Vec always succeeds) or from another such function."""
+        memo = self.__dict__.setdefault("_never_err", {})
+        if path in memo:
+            return memo[path]
+        fn = self.fns.get(path)
+        memo[path] = False      # cycles: not proved
+        if fn is None or not fn.locals or "Result<" not in fn.locals[0]["ty"]:
+            return False
+        import values as _v
+        ev = _v.Ev(self, fn)
+        ok = True
+
+        def callee_never_err(t):
+            tg = self.call_targets(t)
+            return bool(tg) and all(x in self.fns and self.never_err(x) for x in tg)
+
+        def result_local_ok(l, depth=0):
+            """every definition of Result-typed local l is Ok(..), a never-failing crate call, a `?` residual (judged below) or a copy of such"""
+            if depth > 4:
+                return False
+            n = 0
+            for bl in fn.blocks:
+                if bl.idx not in fn.reachable():
+                    continue
+                for st in bl.stmts:
+                    if st["k"] == "assign" and st["dst"]["l"] == l:
+                        n += 1
+                        if st["dst"].get("p"):
+                            return False
+                        rv = st["rv"]
+                        if rv["k"] == "agg" and rv.get("vname") == "Ok":
+                            continue
+                        if rv["k"] == "use":
+                            o = rv["op"].get("mv") or rv["op"].get("cp")
+                            if o and not o.get("p") and result_local_ok(o["l"], depth + 1):
+                                continue
+                        return False
+                t = bl.term
+                if t["k"] == "call" and t.get("dst") and t["dst"]["l"] == l:
+                    n += 1
+                    if t["dst"].get("p"):
+                        return False
+                    if strip_generics(t["fn"].get("path", "")).split("::")[-1] == "from_residual":
+                        continue
+                    if not callee_never_err(t):
+                        return False
+            return n > 0
+
+        if not result_local_ok(0):
+            ok = False
+        for bl in fn.blocks:
+            if bl.idx not in fn.reachable() or not ok:
+                continue
+            for st in bl.stmts:
+                if st["k"] == "assign" and st["rv"]["k"] == "agg" and st["rv"].get("vname") == "Err" and "Result" in str(st["rv"].get("adt", "")):
+                    ok = False
+            t = bl.term
+            if t["k"] == "call" and strip_generics(t["fn"].get("path", "")).split("::")[-1] == "from_residual":
+                src = _v.strip_payload(ev.call_args(bl.idx)[0])
+                while isinstance(src, tuple) and src and src[0] in ("vfield", "field", "variant"):
+                    src = src[1]
+                if isinstance(src, tuple) and src and src[0] == "call" and strip_generics(src[1]).split("::")[-1] == "branch" and src[2]:
+                    src = _v.strip_payload(src[2][0])
+                good = False
+                if isinstance(src, tuple) and src and src[0] == "call":
+                    nm = strip_generics(src[1]).split("::")[-1]
+                    site = src[3] if len(src) > 3 else None
+                    if site and site[0] in self.fns:
+                        ct = self.fns[site[0]].blocks[site[1]].term
+                        tys = ct.get("arg_tys") or []
+                        if nm in self.INFALLIBLE_ON_VEC and tys and tys[0].replace("alloc::", "std::") in ("&mut std::vec::Vec<u8>",):
+                            good = True
+                        else:
+                            tg = self.call_targets(ct)
+                            if tg and all(x in self.fns and self.never_err(x) for x in tg):
+                                good = True
+                if not good:
+                    ok = False
+            if not ok:
+                break
+        memo[path] = ok
+        return ok
 
     def call_targets(self, t):
         """Resolved local/external target paths of a call terminator (virtual calls expand to all in-crate impls)."""
